@@ -240,7 +240,12 @@ off64_t _GD_SampIndSeek(struct gd_raw_file_ *file, off64_t sample,
   dtrace("%p, 0x%" PRIX64 ", 0x%X, 0x%X", file, (uint64_t)sample, data_type,
       mode);
 
-  if (file->pos == sample && f->p >= 0) {
+  /* nothing to do if we're already there -- unless a read-mode seek left us
+   * beyond the end of the data and we're now asked to write: the gap must
+   * still be filled with zeroes, below */
+  if (file->pos == sample && f->p >= 0 &&
+      !((mode & GD_FILE_WRITE) && sample > f->s + 1))
+  {
     dreturn("0x%" PRIX64, (uint64_t)sample);
     return sample;
   }
